@@ -349,6 +349,21 @@ func trunc(s string, n int) string {
 	return s
 }
 
+// Current saves the case that is about to run to VERIF_CURRENT so that a crash of the whole process (a panic
+// in a goroutine of the code under test, a fatal runtime error) can be attributed to it by the driver.
+func (s *Session) Current(test string, c any) {
+	path := os.Getenv("VERIF_CURRENT")
+	if path == "" {
+		return
+	}
+	cb, err := json.Marshal(c)
+	if err != nil {
+		return
+	}
+	b, _ := json.Marshal(ReplayFile{Prop: s.Prop, Test: test, Key: "crash", Case: cb})
+	os.WriteFile(path, b, 0o644)
+}
+
 // Check handles the outcome of one case: nil → pass; open known finding → counted and
 // passed; anything else → replay file written (overwritten while shrinking, so the last
 // one is the minimal case) and the test fails.
